@@ -5,6 +5,7 @@ package main
 import (
 	"fmt"
 	"os"
+	"regexp"
 	"strconv"
 	"strings"
 	"time"
@@ -56,7 +57,17 @@ func parseStack(s string) *Layer {
 var layerBuilders = map[string]func(arg string, kids []*Layer) afero.Fs{
 	"ro": func(arg string, kids []*Layer) afero.Fs { return afero.NewReadOnlyFs(kids[0].Fs) },
 	"bp": func(arg string, kids []*Layer) afero.Fs { return afero.NewBasePathFs(kids[0].Fs, string(unhx(arg))) },
+	"re": func(arg string, kids []*Layer) afero.Fs {
+		return afero.NewRegexpFs(kids[0].Fs, regexp.MustCompile(RegexpPatterns[atoi(arg)]))
+	},
+	"cow": func(arg string, kids []*Layer) afero.Fs { return afero.NewCopyOnWriteFs(kids[0].Fs, kids[1].Fs) },
+	"cache": func(arg string, kids []*Layer) afero.Fs {
+		return afero.NewCacheOnReadFs(kids[0].Fs, kids[1].Fs, time.Duration(atoi(arg))*time.Second)
+	},
 }
+
+// the patterns behind re:<n>; the Coq model has the same three as functions (Stack.v re_match)
+var RegexpPatterns = []string{`\.txt$`, `(^|/)[ab]+$`, `(^|/)a[^/]*$`}
 
 func buildLayer(id string, kids []*Layer) *Layer {
 	kind, arg := id, ""
